@@ -32,6 +32,9 @@ def run(tier, seed, replay=None):
         mc = vlib.tlc(sc, "MCDecode", "Decode_t.cfg" if thorough else "Decode.cfg", workers=8, timeout=3000)
         if mc.rc != 0:
             raise Infra("Decode model check failed (rc=%s, %s)\n%s" % (mc.rc, mc.violated, mc.out[-3000:]))
+        eq = vlib.tlc(sc, "DecodeContractMC", "DecodeContractMC_t.cfg" if thorough else "DecodeContractMC.cfg", workers=8, timeout=3000, extra=["-maxSetSize", "20000000"])
+        if eq.rc != 0:
+            raise Infra("the one-pass completeness test no longer agrees with its definition (rc=%s, %s)\n%s" % (eq.rc, eq.violated, eq.out[-2500:]))
         nproc = 8 if thorough else 4
         per = 60 if thorough else 12
         def cases_for(p):
@@ -50,7 +53,7 @@ def run(tier, seed, replay=None):
         allcases = [cases_for(p) for p in range(nproc)]
         # more records than the command's channels hold (1024): 1025, a few thousand
         allcases[1 % nproc].append({"id": 990001, "parallel": 1, "entries": 1025, "big": False, "chunked": False, "inf": False, "seed": seed * 7 + 1})
-        allcases[2 % nproc].append({"id": 990002, "parallel": 4, "entries": 3000 if not thorough else 9000, "big": False, "chunked": False, "inf": True, "seed": seed * 7 + 2})
+        allcases[2 % nproc].append({"id": 990002, "parallel": 4, "entries": 3000 if not thorough else 8000, "big": False, "chunked": False, "inf": True, "seed": seed * 7 + 2})
         import os
         def one(p):
             d = sc.path("w%d" % p)
